@@ -876,7 +876,7 @@ struct Digit {
             } else {
                 stream += DigitUtils::DigitChar::Zero;
 
-                if (format.Type == RealFormatType::Fixed) {
+                if ((format.Type == RealFormatType::Fixed) && (format.Precision != 0)) {
                     stream += DigitUtils::DigitChar::Dot;
                     insertZerosLarge(stream, format.Precision);
                 }
@@ -1146,8 +1146,10 @@ struct Digit {
         if QENTEM_CONST_EXPRESSION (Fixed_T) {
             if ((dot_index == index) || ((stream.Length() - started_at) == SizeT{1}) ||
                 (!fraction_only && power_increased)) {
-                stream += DigitUtils::DigitChar::Dot;
-                insertZerosLarge(stream, precision);
+                if (precision != 0) {
+                    stream += DigitUtils::DigitChar::Dot;
+                    insertZerosLarge(stream, precision);
+                }
             } else if (fraction_only) {
                 insertZerosLarge(
                     stream, SizeT32(precision -
